@@ -7,8 +7,10 @@ import (
 	"os/exec"
 	"path/filepath"
 	"regexp"
+	"runtime"
 	"sort"
 	"strings"
+	"sync"
 	"syscall"
 )
 
@@ -129,7 +131,57 @@ func BadAxioms(ax []string) []string {
 }
 
 // RunDriver pipes op lines through the compiled Lean driver.
+// RunDriver answers every operation line with the Lean driver.  The driver keeps no state
+// between lines, so a long list is cut into contiguous shards of about equal size in bytes
+// that run in parallel driver processes.
 func RunDriver(lines []string) ([]string, error) {
+	total := 0
+	for _, l := range lines {
+		total += len(l) + 1
+	}
+	shards := runtime.NumCPU()
+	if shards > 16 {
+		shards = 16
+	}
+	if len(lines) < 256 && total < 1<<20 {
+		shards = 1
+	}
+	if shards <= 1 {
+		return runDriver1(lines)
+	}
+	var bounds []int // shard k is lines[bounds[k]:bounds[k+1]]
+	bounds = append(bounds, 0)
+	acc := 0
+	for i, l := range lines {
+		acc += len(l) + 1
+		if acc >= total/shards && len(bounds) < shards && i+1 < len(lines) {
+			bounds = append(bounds, i+1)
+			acc = 0
+		}
+	}
+	bounds = append(bounds, len(lines))
+	outs := make([][]string, len(bounds)-1)
+	errs := make([]error, len(bounds)-1)
+	var wg sync.WaitGroup
+	for k := 0; k+1 < len(bounds); k++ {
+		wg.Add(1)
+		go func(k int) {
+			defer wg.Done()
+			outs[k], errs[k] = runDriver1(lines[bounds[k]:bounds[k+1]])
+		}(k)
+	}
+	wg.Wait()
+	var res []string
+	for k := range outs {
+		if errs[k] != nil {
+			return nil, errs[k]
+		}
+		res = append(res, outs[k]...)
+	}
+	return res, nil
+}
+
+func runDriver1(lines []string) ([]string, error) {
 	if len(lines) == 0 {
 		return nil, nil
 	}
